@@ -2034,8 +2034,8 @@ def fp_fmod(x, y, ty):
     FMOD_SIDE_CONDITIONS.append(side)
     r = z3.SRem(xi, yi)
     res = z3.fpSignedToFP(RNE, r, sort)
-    # fmod keeps the sign of x also for a zero result (-0.0); irrelevant for comparisons/additions here but kept exact
-    res = z3.If(z3.And(r == 0, z3.fpIsNegative(x)), z3.fpNeg(z3.FPVal(0.0, sort)), res)
+    # NOTE: C fmod returns -0.0 for a zero result of a negative dividend; +0.0 is produced here.  The sign of a zero
+    # is unobservable through the comparisons and additions applied to it in cpr.rs (stated in DESIGN §1.2).
     return res
 
 
